@@ -33,5 +33,7 @@ var vHarnesses = map[string]func(a []int){
 	"VH_C10": func(a []int) { VH_C10(a[0], a[1], a[2], a[3]) },
 	"VH_C10_WHERE": func(a []int) { VH_C10_WHERE(a[0], a[1], a[2]) },
 	"VH_C15": func(a []int) { VH_C15(a[0], a[1], a[2]) },
+	"VH_C14_OK": func(a []int) { VH_C14_OK(a[0], a[1], a[2], a[3]) },
+	"VH_C14_FAULTY": func(a []int) { VH_C14_FAULTY(a[0], a[1]) },
 	"VH_C02_L2": func(a []int) { VH_C02_L2(a[0], a[1], a[2], a[3], a[4]) },
 }
